@@ -238,7 +238,7 @@ func main() {
 		},
 		Run: run,
 		Floors: map[string]int64{"histories": 40, "flushes_compared": 400, "invalid_values_delivered": 300, "missing_profile_judgements": 500,
-			"real_profile_judgements": 500, "fresh_comparisons": 40},
+			"real_profile_judgements": 150, "fresh_comparisons": 30},
 		CaseTimeout: 180 * time.Second,
 	})
 }
